@@ -86,8 +86,8 @@ impl Scenario for C18 {
         let (a, b) = match fam {
             "hll" => (rng.range(4, 14), rng.below(3)),
             "cpc" => (rng.range(4, 12), 0),
-            "theta" => (rng.range(5, 12), rng.below(4)),
-            "fi" => (rng.range(3, 10), rng.below(3)),
+            "theta" => (rng.range(5, 12), rng.below(16)),
+            "fi" => (if rng.chance(1, 6) { rng.range(0, 3) } else { rng.range(3, 10) }, rng.below(3)),
             "bloom" => (rng.range(1, 100_000), rng.range(1, 12)),
             _ => (rng.range(1, 8), rng.range(3, 400)),
         };
@@ -193,7 +193,7 @@ impl Scenario for C18 {
                     2 => datasketches::common::ResizeFactor::X4,
                     _ => datasketches::common::ResizeFactor::X8,
                 };
-                let mut sk = ThetaSketch::builder().lg_k(lg_k).resize_factor(rf).build();
+                let mut sk = ThetaSketch::builder().lg_k(lg_k).resize_factor(rf).sampling_probability([1.0f32, 1.0, 0.3, 0.01][(cfg.b / 4 % 4) as usize]).build();
                 let measure = |sk: &ThetaSketch, after_trim: bool, st: &mut RunStats| -> Result<(), Violation> {
                     let n = sk.num_retained();
                     check!(n <= 15 * 2 * k / 16, "C18.theta_retained", "theta sketch retains {n} entries at lg_k {lg_k} (bound 15/16 of 2k = {})", 15 * 2 * k / 16);
@@ -282,8 +282,10 @@ impl Scenario for C18 {
             }
             "fi" => {
                 let kind = (cfg.b % 3) as u8;
-                let lg = (cfg.a as u8).clamp(3, 12);
-                let mut sk = FiSk::new(kind, lg);
+                // requested sizes 1, 2, 4 are valid and documented as clamped up to 8
+                let raw = (cfg.a as u8).min(12);
+                let lg = raw.max(3);
+                let mut sk = FiSk::new(kind, raw);
                 let cap = 3 * (1usize << lg) / 4;
                 let measure = |sk: &FiSk, st: &mut RunStats| -> Result<(), Violation> {
                     let n = sk.num_active();
